@@ -601,11 +601,6 @@ class PPG3204():
         if not isinstance(data, (str,) + Array_Like):
             raise ValueError('`data` is not in the correct format')
         
-        if len(data) > self.MAX_MEMORY_LEN-start_addrs+1:
-            msg = 'The length of the data is greater than the maximum memory length minus the start address. Setting to the nearest value.'
-            warnings.warn(msg)
-            data = data[:self.MAX_MEMORY_LEN-start_addrs+1]
-
         if isinstance(data, str):
             data = str2array(data, bool).astype(np.uint8)
         else:
@@ -613,6 +608,11 @@ class PPG3204():
         
         if data.ndim == 1:
             data = np.tile(data, (CHs.size, 1))
+
+        if data.shape[-1] > self.MAX_MEMORY_LEN-start_addrs+1: # bits per channel (not rows, not characters) against the room left in the memory
+            msg = 'The length of the data is greater than the maximum memory length minus the start address. Setting to the nearest value.'
+            warnings.warn(msg)
+            data = data[:, :self.MAX_MEMORY_LEN-start_addrs+1]
         
         for ch, data_ch_i in zip(CHs, data):
 
